@@ -43,6 +43,26 @@ Proof.
 Qed.
 Print Assumptions C32_update_only_if.
 
+(** The same statement at Prop level ([update_prop], [regular_update_prop], [signed_distinct],
+    [kept], [replaced], [same_subject_in] in Proofs/PKIUpdate.v): same ISD, same base, next
+    serial, same noTrustReset, payload satisfying every rule of C33, at least quorum(p) votes,
+    every newly introduced voting certificate properly signed, and either all votes name
+    pairwise distinct, properly signed sensitive voting certificates of [p], or all votes name
+    pairwise distinct, properly signed regular voting certificates of [p] while quorum, core and
+    authoritative ASes are equal, every sensitive certificate of [t] is in [p] byte for byte and
+    vice versa, roots and regular voters of [p] and [t] have the same subjects in both
+    directions, every replaced regular voter is among the votes and every replaced root of [p]
+    has properly signed. ([properly_signed sis c]: some signer info of a supported version names
+    [c], carries the digest of the payload and verifies under the key of [c].) *)
+Theorem C32_update_only_if_prop : forall p t sis,
+  trc_validate p = None -> t_serial p < two64 ->
+  verify (Some p) t sis = Accept -> update_prop p t sis.
+Proof.
+  intros p t sis Vp B A. apply update_spec_b_prop, update_sound; [assumption|assumption|].
+  now apply verify_update_iff.
+Qed.
+Print Assumptions C32_update_only_if_prop.
+
 (** Acceptance implies that at least quorum(p) DISTINCT voting certificates of the predecessor,
     all sensitive or all regular, each produced a valid signature over the payload. *)
 Theorem C32_distinct_quorum : forall p t sis,
@@ -137,3 +157,32 @@ Example C32_example :
   verify (Some pred0) (succ0 [3; 2]) [sig 3 1003 3; sig 4 1004 4; sig 4 2004 44; sig 5 1005 5; sig 3 1003 9]
     = RejSig AtVotes SSignature.
 Proof. vm_compute. repeat split; reflexivity. Qed.
+
+(** Non-vacuity of the base-TRC theorems: a base TRC signed by all four voters is accepted (and
+    satisfies the property's boolean statement); it is rejected when one voter's signature is
+    missing or invalid, when a predecessor is supplied, and when it carries votes.
+    ([C32_example] above contains an accepted regular update, votes [3; 2], and an accepted
+    sensitive update, votes [0; 1].) *)
+Definition base0 : trc :=
+  mktrc 1 1 1 1 10 900 0 false [] 2 [272; 273] [272]
+        [vcert 1 1 1001 1; vcert 1 2 1002 2; vcert 2 3 1003 3; vcert 2 4 1004 4; rcert 5 1005 5].
+
+Example C32_example_base :
+  verify None base0 [sig 1 1001 1; sig 2 1002 2; sig 3 1003 3; sig 4 1004 4] = Accept /\
+  base_spec_b base0 [sig 1 1001 1; sig 2 1002 2; sig 3 1003 3; sig 4 1004 4] = true /\
+  verify None base0 [sig 1 1001 1; sig 2 1002 2; sig 3 1003 3] = RejSig AtNewVoters SMissing /\
+  verify None base0 [sig 1 1001 1; sig 2 1002 2; sig 3 1003 3; sig 4 1004 9]
+    = RejSig AtNewVoters SSignature /\
+  verify (Some pred0) base0 [sig 1 1001 1; sig 2 1002 2; sig 3 1003 3; sig 4 1004 4]
+    = RejPredForBase /\
+  verify None (mktrc 1 1 1 1 10 900 0 false [0] 2 [272; 273] [272] (t_certs base0))
+         [sig 1 1001 1; sig 2 1002 2; sig 3 1003 3; sig 4 1004 4] = RejValidate EVotesOnBase.
+Proof. vm_compute. repeat split; reflexivity. Qed.
+
+(** the Prop-level statement is inhabited by the accepted regular and sensitive updates *)
+Example C32_example_update_prop :
+  update_prop pred0 (succ0 [3; 2]) [sig 3 1003 3; sig 4 1004 4; sig 4 2004 44; sig 5 1005 5] /\
+  update_prop pred0 (succ0 [0; 1]) [sig 1 1001 1; sig 2 1002 2; sig 4 2004 44].
+Proof.
+  split; apply C32_update_only_if_prop; vm_compute; reflexivity.
+Qed.
